@@ -40,9 +40,8 @@ ASSUMPTIONS = ['cascades not in the model (exercised by the oracle only): Modify
                'their new columns, new fields); the model validates them (columns of the target table; the sections '
                'doRemoveColumns regroups are computed by the model, raw sections excluded; fields not moved are '
                'deleted); descriptors it rejects count as outside the fragment',
-               'the theorem excludes one case: the user action UpdateSummaryViewSection on the raw section of a summary '
-               'table, which the code accepts (known finding; C09_full is refuted by it); the exclusion is evaluated '
-               'on every recorded bundle',
+               'the theorem C09_full has no side condition; it speaks about runs the model accepts (Ok): a recorded '
+               'bundle the model rejects although the engine ran it shows up as outside the fragment',
                'direct AddRecord/UpdateRecord that write arbitrary references into metadata records are outside the '
                'vocabulary (the engine stores them unchecked)']
 TECHNIQUE = ('Coq proof of an inductive invariant over a hand-written executable model of the metadata cascades + '
@@ -51,9 +50,8 @@ LEVEL_TEXT = ('Kernel-checked: every modelled user action (tables, columns, view
               'rule helpers, new summary tables) keeps all metadata references resolvable, the auto-removal loop ends '
               'with every helper column in use, hence every bundle and every reachable state; removals with '
               'back-reference clearing leave no reference to a removed record; RemoveColumn of group-by sources and '
-              'UpdateSummaryViewSection included. One case is excluded and refuted in Coq by a witness that also fails '
-              'on the engine: UpdateSummaryViewSection applied by the user to the raw section of a summary table '
-              '(known finding).')
+              'UpdateSummaryViewSection included: C09_full is a theorem without side conditions. The witnesses of the '
+              'three defects repaired on the way (e0ec788, ae5ee6e, ea10a38) are regression examples and scripted histories.')
 LEVEL_NOTE = ('Kernel strength: what summary.py decides from names/types/formulas enters as recorded parameters; '
               'actions outside the model are covered by the oracle only (listed under assumptions).')
 
@@ -919,11 +917,8 @@ CHECK_ORACLE = 'fun c => match c with (pre, ops, mid, fin, v) => Bool.eqb (RefsR
 # ------------------------------------------------------------------------------------------------
 # the check
 
-# monitor of the hypothesis of C09_cascade_preserves: wherever the faithful run is defined, the guarded one is too
-CHECK_GUARD = ('fun c => match c with (pre, ops, mid, fin, v) => '
-               'res_ok (steps_guarded ops pre) || negb (res_ok (steps ops pre)) end')
 CHECKS = [('steps', CHECK_STEPS), ('auto', CHECK_AUTO), ('oracle', CHECK_ORACLE), ('stepsok', CHECK_STEPS_OK),
-          ('autook', CHECK_AUTO_OK), ('guard', CHECK_GUARD)]
+          ('autook', CHECK_AUTO_OK)]
 
 BASE_DOC = [[['AddTable', 'T', [{'id': 'A', 'type': 'Text'}, {'id': 'B', 'type': 'Text'}]]],
             [['CreateViewSection', 1, 0, 'record', [3], None]]]
@@ -1107,14 +1102,11 @@ def correspond(ctx):
     for i in res[key][:5]:
       ctx.broken('correspondence:%s' % what,
                  'history %s ops %s' % (json.dumps(recs[i]['history'], default=repr), [repr(o) for o in recs[i]['ops']]))
-  # the guard of C09_cascade_preserves may only reject bundles in which one of the two known defects occurred
-  for i in res['guard']:
-    defects = regroup_defects(recs[i])
-    if defects:
-      ctx.bump('guard rejected: ' + '+'.join(sorted(defects)))
-    else:
-      ctx.broken('monitor:update_summary_section broke its guard in a bundle without a known defect',
-                 'history %s' % json.dumps(recs[i]['history'], default=repr))
+  # the repaired defects must not occur in any successful bundle (each would also make the model reject or differ)
+  for i, r in enumerate(recs):
+    for d in sorted(regroup_defects(r) - {'duplicate-field-regrouped'}):   # duplicates are fine when all move
+      ctx.broken('monitor:update_summary_section ran in a way the repaired code excludes (%s)' % d,
+                 'history %s' % json.dumps(r['history'], default=repr))
   ctx.extra['bundles'] = len(recs)
   ctx.extra['bundles_fully_modelled'] = len(recs) - len(not_ok)
   ctx.extra['auto_fix_unmodelled'] = len(res['autook'])
